@@ -141,7 +141,19 @@ class Runner:
         N = self.tools[rec["n"]]
         home = self.bases[pre["b"]] @ self.tool_local(pre["t"])
         new_home = home @ rf.trans_inv(E) @ N
-        for m in (E, N, rf.trans_inv(E) @ N, home, new_home):
+        mats = [E, N, rf.trans_inv(E) @ N, home, new_home]
+        # the spec lets a base move keep or drop a custom tool, so the tool of the candidate state used above need not be the
+        # arm's: classify on the arm's actual tool pose as well (FK(theta) is what setArbitraryHome itself starts with)
+        try:
+            with contextlib.redirect_stdout(io.StringIO()):
+                Er = np.array(self.arm.FK(np.array(theta, dtype=float).copy()).gTM(), dtype=float)
+            BP = self.bases[pre["b"]] @ rf.poe_space(np.eye(4), self.spec["S"], zoo.clamp(self.spec, theta))
+            home_r = self.bases[pre["b"]] @ rf.trans_inv(BP) @ Er
+            mats += [Er, rf.trans_inv(Er) @ N, home_r, home_r @ rf.trans_inv(Er) @ N]
+            E = Er
+        except Exception:
+            pass
+        for m in mats:
             if rf.rot_angle(m[:3, :3]) > PI - 1e-3:
                 self.tainted = True
         # the same arithmetic drops a relative rotation below the library's 1e-6 'near zero' cut-off (known finding
